@@ -129,6 +129,8 @@ class LogicBlock(SystemWideDevice, ModeDevice):
     def device_removed_from_mode(self, mode: Mode):
         """Unset internal state to prevent leakage."""
         super().device_removed_from_mode(mode)
+        # a pending timeout must not fire on a block without state (or on the state of the next player)
+        self.delay.clear()
         self._state = None
 
     @property
@@ -353,6 +355,11 @@ class Counter(LogicBlock):
 
         self.ignore_hits = False
         self.hit_value = -1
+
+    def device_removed_from_mode(self, mode: Mode):
+        """Unset internal state and end a running hit window."""
+        super().device_removed_from_mode(mode)
+        self.ignore_hits = False
 
     async def _initialize(self):
         await super()._initialize()
